@@ -306,4 +306,7 @@ def run(tier):
         "NeverFails domain: every over-long line has a blank, comma or operator "
         "outside character literals strictly inside its text (comments: two words); "
         "other raising cases are counted in outside_domain",
-        "`!$` conditional-compilation lines and fixed-form source are not covered"])
+        "a line whose first non-blank character is `!` is a comment unless it starts "
+        "with the `!$omp` / `!$acc` sentinel (any case): `!$ x = 1` (conditional "
+        "compilation), `!$ser`, `!$$$`, `!$omx` lines are comments",
+        "fixed-form source is not covered"])
